@@ -103,7 +103,7 @@ Theorem C03_chunks_partition_mask w m k : 0 <= k < w ->
 Proof. exact (chunks_cover w m k). Qed.
 Print Assumptions C03_chunks_partition_mask.
 
-Example C03_chunks_example : chunks 8 0b01101100 = [(2, Some 4); (5, Some 7)] /\ chunks 4 15 = [(0, None)].
+Example C03_chunks_example : chunks 8 108 = [(2, Some 4); (5, Some 7)] /\ chunks 4 15 = [(0, None)].
 Proof. split; reflexivity. Qed.
 
 (* ---------- ResetInserter ---------- *)
@@ -147,7 +147,7 @@ Theorem C03_own_reset_not_gated tab ss e r st i b : 0 <= b ->
   Z.testbit (um tab ss i) b = true -> sd_reset_less (tab i) = false -> Z.land 1 (s_curr st r) <> 0 ->
   Z.testbit (s_next (sync_process tab [ctl_switch e ss] (Some r) st) i) b = Z.testbit (sd_init (tab i)) b.
 Proof.
-  intros Hb Hd Hrl Hr. apply sync_reset_bit; auto. unfold um in *. rewrite stmts_mask_ctl_switch. auto.
+  intros Hb Hd Hrl Hr. apply sync_reset_bit; auto; try (unfold um in *; rewrite stmts_mask_ctl_switch; auto).
 Qed.
 Print Assumptions C03_own_reset_not_gated.
 
@@ -160,7 +160,7 @@ Theorem C03_reset_outside_enable tab ss e r rst st i b :
   = Z.testbit (sd_init (tab i)) b.
 Proof.
   intros Hr Ht Hk Hb Hd Hrl Hon. rewrite reset_process by auto. rewrite Hon.
-  apply sync_ctl_reset_bit; auto. unfold um in *. rewrite stmts_mask_ctl_switch. auto.
+  apply sync_ctl_reset_bit; auto; try (unfold um in *; rewrite stmts_mask_ctl_switch; auto).
 Qed.
 Print Assumptions C03_reset_outside_enable.
 
